@@ -57,12 +57,31 @@ func runC18(c *Ctx) {
 		c.Rule("R18.3", "MustPass")
 		c.StoredIs(parent, "first anchor is the local state", firstStore(c, parent, "&var:newprev"), 1, "localstate")
 	}
+	// R18.5: what the builder calls on remote proofs does not dereference a nil previous state
+	c.Rule("R18.5", "MustPass")
+	if fn := c.Need("isaac/block.(SuffrageProof).Prove"); fn != nil {
+		var derefs []ssa.Instruction
+		for _, in := range allInstrs(fn) {
+			if cc := callCommon(in); cc != nil && cc.IsInvoke() && c.D(cc.Value) == "previousState" {
+				derefs = append(derefs, in)
+			}
+		}
+		c.MP(fn, "Prove dereferences the previous state only after a nil test (the builder passes nil from genesis)", derefs, 2, GNonNil("previousState"))
+	}
 	if fn := c.Need("isaac.(*SuffrageStateBuilder).Build"); fn != nil {
 		c.Rule("R18.3", "MustPass")
 		bb := c.CallsD(fn, "s.buildBatch(*)")
 		last := "call(s.lastSuffrageProof)(ctx)"
 		c.MP(fn, "history built only on a validated last proof", bb, 1, GOk(last+"#1.IsValid(s.networkID)"))
 		c.MP(fn, "history built only if the last proof was fetched", bb, 1, GOk(last))
+		// nothing is read from the remote's last proof before it was validated
+		var uses []ssa.Instruction
+		for _, in := range allInstrs(fn) {
+			if cc := callCommon(in); cc != nil && cc.IsInvoke() && c.D(cc.Value) == last+"#1" && cc.Method.Name() != "IsValid" {
+				uses = append(uses, in)
+			}
+		}
+		c.MP(fn, "the remote's last proof is used only after IsValid succeeded", uses, 2, GOk(last+"#1.IsValid(s.networkID)"))
 		c.ArgIs(fn, "history built from the local state", bb, 1, 1, "localstate")
 		c.ArgIs(fn, "history built up to the last proof's state", bb, 1, 2, last+"#1.State()")
 		succ := c.SuccessReturns(fn)
